@@ -202,7 +202,106 @@ def mutate_letalias(repo, f):
     return n
 
 
+IFLINE = re.compile(r"^(\s*)((?:let (?:mut )?\w+(?:: [^=]+)? = |return |[\w\.]+ = |\} else )?)if (?!let )(.+) \{$")
+IFLET = re.compile(r"^(\s*)((?:let (?:mut )?\w+(?:: [^=]+)? = |return |[\w\.]+ = )?)if let (.+?) = (.+) \{$")
+
+
+def _if_blocks(lines, i, ind):
+    """(index of `} else {`, index of the closing line) of the if that starts at line i with indentation `ind`, or None (no else / else if)"""
+    j = i + 1
+    while j < len(lines) and not (lines[j].startswith(ind + "}") and not lines[j].startswith(ind + " ")):
+        j += 1
+    if j >= len(lines) or lines[j].rstrip() != ind + "} else {":
+        return None
+    k = j + 1
+    while k < len(lines) and not (lines[k].startswith(ind + "}") and not lines[k].startswith(ind + " ")):
+        k += 1
+    if k >= len(lines) or lines[k].startswith(ind + "} else"):
+        return None
+    return j, k
+
+
+def mutate_ifnot(repo, f):
+    """`if c { A } else { B }` -> `if !(c) { B } else { A }` (no `if let`, no else-if chain): the branches are swapped under the negated condition"""
+    p = os.path.join(repo, f["file"])
+    lines = open(p, encoding="utf-8").read().split("\n")
+    l0, l1 = f["l"] - 1, f["el"]
+    n, i = 0, l0
+    while i < l1:
+        m = IFLINE.match(lines[i])
+        if m and not m.group(2).startswith("}") and "//" not in lines[i]:
+            ind = m.group(1)
+            jb = _if_blocks(lines, i, ind)
+            if jb and jb[1] < l1:
+                j, k = jb
+                then_, else_ = lines[i + 1:j], lines[j + 1:k]
+                c = m.group(3)
+                neg = c[1:] if re.fullmatch(r"!([\w\.]+(\(\))?)+", c) else f"!({c})"
+                lines[i:k] = [f"{ind}{m.group(2)}if {neg} {{"] + else_ + [ind + "} else {"] + then_
+                n += 1
+                i = k + 1
+                continue
+        i += 1
+    if n:
+        open(p, "w", encoding="utf-8").write("\n".join(lines))
+    return n
+
+
+def mutate_iflet(repo, f):
+    """`if let P = e { A } else { B }` -> `match e { P => { A } _ => { B } }`"""
+    p = os.path.join(repo, f["file"])
+    lines = open(p, encoding="utf-8").read().split("\n")
+    l0, l1 = f["l"] - 1, f["el"]
+    n, i = 0, l0
+    while i < l1:
+        m = IFLET.match(lines[i])
+        if m and "//" not in lines[i] and " && " not in m.group(4) and "let " not in m.group(4):
+            ind = m.group(1)
+            jb = _if_blocks(lines, i, ind)
+            if jb and jb[1] < l1:
+                j, k = jb
+                then_, else_ = lines[i + 1:j], lines[j + 1:k]
+                tail = lines[k][len(ind) + 1:]
+                new = [f"{ind}{m.group(2)}match {m.group(4)} {{", f"{ind}    {m.group(3)} => {{"] + ["    " + x for x in then_] + [f"{ind}    }}", f"{ind}    _ => {{"] + \
+                      ["    " + x for x in else_] + [f"{ind}    }}", f"{ind}}}{tail}"]
+                lines[i:k + 1] = new
+                n += 1
+                l1 += len(new) - (k + 1 - i)
+                i += len(new)
+                continue
+        i += 1
+    if n:
+        open(p, "w", encoding="utf-8").write("\n".join(lines))
+    return n
+
+
+def mutate_isempty(repo, f):
+    """`!x.is_empty()` -> `(x.len() > 0)`, `x.is_empty()` -> `(x.len() == 0)`"""
+    p = os.path.join(repo, f["file"])
+    lines = open(p, encoding="utf-8").read().split("\n")
+    l0, l1 = f["l"] - 1, f["el"]
+    n = 0
+    for i in range(l0, min(l1, len(lines))):
+        ln = lines[i]
+        if "is_empty()" not in ln or ln.lstrip().startswith("//") or ln.lstrip().startswith("."):
+            continue
+        new = re.sub(r"!((?:\w+(?:\(\))?\.)*\w+(?:\(\))?)\.is_empty\(\)", r"(\1.len() > 0)", ln)
+        new = re.sub(r"(?<![\w\.\)])((?:\w+(?:\(\))?\.)*\w+(?:\(\))?)\.is_empty\(\)", r"(\1.len() == 0)", new)
+        if new != ln:
+            lines[i] = new
+            n += 1
+    if n:
+        open(p, "w", encoding="utf-8").write("\n".join(lines))
+    return n
+
+
 def mutate(repo, f):
+    if MODE == "ifnot":
+        return mutate_ifnot(repo, f)
+    if MODE == "iflet":
+        return mutate_iflet(repo, f)
+    if MODE == "isempty":
+        return mutate_isempty(repo, f)
     if MODE == "swaparms":
         return mutate_swaparms(repo, f)
     if MODE == "letalias":
